@@ -137,7 +137,14 @@ def roundtrip_cases(w, rep, inst, got, want, where, msg):
         rep.incomplete("C03.roundtrip", inst, "too many if_else conditions", where=where)
         return
     allok = True
+    expanded = []
     for desc, gb in bs:
+        mm = minmax_cases(gb)            # a clamp (fmin / fmax) in the round trip is resolved both ways
+        if mm is None or len(mm) == 1:
+            expanded.append((desc, gb))
+        else:
+            expanded += [("%s; %s" % (desc, lab) if desc != "-" else lab, g2) for lab, g2 in mm]
+    for desc, gb in expanded:
         v, d = decide_by_cases(gb, want)
         if v == EQUAL:
             continue
